@@ -42,7 +42,7 @@ m = {
  "setup_cmd": "make -C /verif setup",
  "hooks": {
    "guard": "verif",
-   "enable": "hook programs under /verif/hooks are compiled into the module virtually: go build -tags verif -overlay <json> ./internal/verifhook/<name> (cwd /repo); no hook source is committed in /repo",
+   "enable": "hook programs under /verif/hooks are compiled into the module virtually: go build -tags verif -overlay <json> ./internal/verifhook/<name> (cwd /repo); one hook (wasmenc) additionally maps hooks/wasmenc/export/verif_export.go into package internal/codegen/wasm through the same overlay (//go:build verif wrappers around the unexported encoders); no hook source is committed in /repo",
    "baseline_off_cmd": BASE,
    "source_commits": [],
    "add_only": True,
